@@ -86,6 +86,10 @@ func genInbox(r *Rng, prop string, k int) *RunSpec {
 	owned := []string{st.Note1, st.Note2, n3}
 	foreign := []string{st.RNote, "https://" + hostR + "/n/10", "https://" + hostB + "/n/1"}
 	embedActor := func(id string) interface{} {
+		if r.Intn(9) == 0 {
+			// a Link-derived value with an id of its own: it is identified by its id, not by what it points to
+			return J{"type": Pick(r, []string{"Link", "Mention"}), "id": id, "href": "https://" + hostR + "/elsewhere"}
+		}
 		if r.Intn(3) == 0 {
 			return J{"type": "Person", "id": id, "inbox": id + "/inbox"}
 		}
@@ -131,7 +135,13 @@ func genInbox(r *Rng, prop string, k int) *RunSpec {
 				if r.Intn(4) == 0 {
 					st.W.Fate = map[string]string{id: Pick(r, []string{"unreachable", "nonjson"})}
 				}
-				st.W.Remote = append(st.W.Remote, DocSpec{id, mustJSON(J{"@context": asCtx, "type": "Note", "id": id, "content": "fetched"})})
+				fd := J{"@context": asCtx, "type": "Note", "id": id, "content": fmt.Sprint("fetched ", i)}
+				for _, m := range []string{"summary", "name", "inReplyTo", "sensitive-x"} {
+					if r.Intn(3) == 0 { // documents differ in which members they have
+						fd[m] = "https://" + hostR + "/m/" + m + fmt.Sprint(i)
+					}
+				}
+				st.W.Remote = append(st.W.Remote, DocSpec{id, mustJSON(fd)})
 				objs = append(objs, id)
 			} else {
 				objs = append(objs, mkNote(hostR, i))
@@ -150,7 +160,9 @@ func genInbox(r *Rng, prop string, k int) *RunSpec {
 			if r.Bool() {
 				a.Docs = append(a.Docs, DocSpec{nt["id"].(string), mustJSON(J{"@context": asCtx, "type": "Note", "id": nt["id"], "content": "old", "summary": "kept?"})})
 			}
-			if typ == "Delete" && r.Bool() {
+			if r.Intn(8) == 0 {
+				objs = append(objs, J{"type": "Mention", "id": nt["id"], "href": fmt.Sprintf("https://%s/n/%d", actHost, 90+i)})
+			} else if typ == "Delete" && r.Bool() {
 				objs = append(objs, nt["id"])
 			} else if typ == "Update" && r.Intn(6) == 0 {
 				objs = append(objs, nt["id"])
@@ -602,6 +614,9 @@ func oracleInbox(c *DriveCtx, res *Result) {
 			s.violate("C04", "valid-activity-refused", site, fmt.Sprintf("%s expected to be applied, ended with status %d err=%v", typ, t.Rec.Status, t.Err))
 		}
 		return
+	}
+	if ids := collIDs(after[me.Inbox], ""); len(ids) == 0 || ids[0] != actID {
+		s.violate("C04", "inbox-entry-missing", site, fmt.Sprintf("the activity was answered 200 but the inbox starts with %v, not with %s", ids, actID))
 	}
 	// ---- accepted: expected effects, nothing else
 	s.probe("inbox-applied:" + typ)
